@@ -215,6 +215,7 @@ def add_evaluation_counters(total, prop):
 def replay_artifact(binary, path, exclude, times, env_extra=None):
     """re-run a failing case through the replay driver; returns number of failing runs"""
     fails = 0
+    script = binary.endswith(".py")
     env = dict(os.environ)
     env["ASAN_OPTIONS"] = "detect_leaks=1:handle_abort=0"
     env["UBSAN_OPTIONS"] = "print_stacktrace=1:halt_on_error=1"
@@ -222,6 +223,8 @@ def replay_artifact(binary, path, exclude, times, env_extra=None):
     last = ""
     for _ in range(times):
         cmd = [binary, "--replay", path]
+        if script:
+            cmd = [sys.executable, binary, "--replay", path, "--src", B.SRC_ROOT]
         if exclude:
             cmd += ["--exclude", ",".join(sorted(exclude))]
         try:
@@ -259,6 +262,8 @@ def main():
     # ---- build ------------------------------------------------------------
     try:
         binaries = B.build_all(prop["build"])
+        if prop.get("replay_script"):
+            binaries.setdefault("main", os.path.join(VERIF, prop["replay_script"]))
     except B.BuildError as e:
         log(f"[{pid}] BUILD FAILED: {e}")
         # a harness that fails to compile against the tree may itself be the
@@ -384,7 +389,7 @@ def main():
                                env=dict(os.environ, VF_MODE=j.spec.get("mode", "fuzz")))
             nfail = 2 if p.returncode != 0 else 0
             out = p.stdout.decode("utf-8", "replace")
-        elif j.kind == "script":
+        elif j.kind == "script" and not prop.get("replay_script"):
             nfail, out = 2, j.out
         else:
             rb = binaries[prop.get("replay_binary", "main")] if j.kind == "fuzz" else binary
@@ -410,7 +415,13 @@ def main():
         base = total["rc_classes"].get(prop.get("floor_base", {}).get(cls, ""), 0) or ev
         if got / base < floor:
             degraded.append(f"class {cls}: {got}/{base} < floor {floor}")
-    min_wall = prop.get("min_search_s", {}).get(tier, 0)
+    for num, den, floor in prop.get("ratio_floors", []):
+        n_, d_ = total["classes"].get(num, 0), max(1, total["classes"].get(den, 0))
+        if n_ / d_ < floor:
+            degraded.append(f"ratio {num}/{den} = {n_}/{d_} < floor {floor}")
+    for cls, need in prop.get("min_counts", {}).items():
+        if total["classes"].get(cls, 0) < need:
+            degraded.append(f"class {cls}: only {total['classes'].get(cls, 0)} cases, at least {need} expected")
 
     wall = time.time() - t0
     status = "held"
